@@ -75,6 +75,10 @@ def extract(ctx):
         os.remove(out)
     with open(out, "w") as f:
         f.write(p.stdout)
+    # the scenario of known finding describe-cyclic-value is only generated when the finding is listed
+    known, _ = checklib.load_known()
+    if ("C16", "describe-cyclic-value") in known:
+        checklib.GOENV["C16_CYCLIC"] = "1"
     import threading
     ctx.race_thread = threading.Thread(target=_race_pass, args=(ctx,))
     ctx.race_thread.start()
@@ -114,6 +118,9 @@ SPEC = dict(
         "unicode.ToLower is modelled as: ASCII, U+0130 -> i, U+212A -> k, every other rune keeps a non-ASCII value",
     ],
     assumptions=[
+        "values visible to a suspended thread are acyclic: `describe` of a thread that sees a self-containing list/map never ends (fatal stack overflow; known finding describe-cyclic-value, root cause shared with C06 cyclic-container-stringify)",
+        "the model's lock is ed.lock only (counter, `locked` restores it by construction); is.cond.L and ed.mutexesMutex are covered by the regenerated lock fact and the concurrent kinds, not by theorems",
+        "commands are atomic in the model; a command arriving while another one or an evaluator call is in progress is only tested (conc, telnet, race pass)",
         "running threads are observed while blocked in a registered Go function (deterministic); no command is issued while a thread is between two states",
         "evaluating the `inject` expression does not panic (C06); what it does otherwise (calls program functions, does not return) is an outcome the theorems quantify over",
     ],
@@ -123,10 +130,13 @@ SPEC = dict(
 META = dict(
     technique="Lean 4 theorems over an executable model of debug_cmd.go and the command side of debug.go (explicit panic primitives, lock counter, Hoare-style rules) + vocabulary regenerated from DebugCommandsMap + differential correspondence with the real debugger in every state of a small state machine",
     level_text=("Proof: for every debugger state satisfying the reachability invariant (preserved by every command and every "
-                "evaluator event), every byte string as input line and every behaviour of the two oracles, HandleInput's model "
-                "returns ok/error (no panic primitive fails, no lock taken twice), leaves the lock free and answers a following "
-                "`status`; the two guards of a44f74f are necessary (witnesses). Model tied to the code by the regenerated command "
-                "table (keys, types, argument-count tests) and a reply-class differential over scenarios x command lines."),
+                "evaluator event incl. the late completion of a pending inject), every byte string as input line and every behaviour "
+                "of the oracles, HandleInput's model returns ok/error OR is `inject` still evaluating its expression (third disjunct "
+                "of handle_never_panics; proved to occur only when the oracle says the expression does not return); no panic primitive "
+                "fails, ed.lock is not taken twice, it is free after the command and while the expression is evaluated, a following "
+                "`status` answers. Guard necessity by witnesses. Tied to the code by regenerated facts (command words, evaluated "
+                "argument-count tests, words HandleInput compares with, lock discipline of every function of debug.go for ed.lock, "
+                "is.cond.L, ed.mutexesMutex) and a reply-class differential over scenarios x command lines, incl. concurrent kinds."),
     level_note=("Trusted: Lean kernel + propext/Classical.choice/Quot.sound; the correspondence harness; JSON-encodability of the "
                 "result is tested (json.Marshal on every reply), not proved (only error data is modelled); replies that alias live tables and concurrent commands are tested (concurrent kind), not modelled; expression evaluation and container paths are oracles."),
 )
